@@ -41,7 +41,7 @@ def render_val(v, utf8):
         return None
 
 
-def intent(c, au, utf8, dnr, pfx):
+def intent(c, au, utf8, dnr, pfx, serde_flags=0):
     """what the call means, as the canonical request string(s) of the Lean driver; None = must be rejected.
     'OUT' = outside the quantifier of the property (e.g. negative flags): no verdict."""
     op = c["op"]
@@ -86,7 +86,7 @@ def intent(c, au, utf8, dnr, pfx):
             d = render_val(v, utf8)
             if w is None or d is None:
                 return None
-            out.append(f"store {verb} key={hx(w)} flags={fl or 0} exp={e} data={hx(d)} cas={casv} nr={int(noreply)}")
+            out.append(f"store {verb} key={hx(w)} flags={serde_flags if fl is None else fl} exp={e} data={hx(d)} cas={casv} nr={int(noreply)}")
         return " ; ".join(out) if out else "NOTHING"
     if op in ("get", "gets", "gat", "gats", "get_many", "gets_many"):
         ks = c["ks"] if op.endswith("many") else [c["k"]]
@@ -181,6 +181,11 @@ def gen(ctx):
             cases.append((cfg, {"op": "set_many", "items": [("a", b"1")], "e": i, "nr": False}))
         for cs in cass:
             cases.append((cfg, {"op": "cas", "k": "k", "v": b"v", "cas": cs, "nr": rng.choice([None, True, False])}))
+    # a serializer that returns non-zero flags: an explicit flags argument (including 0) must override it
+    for fl in (None, 0, 1, 5, 2 ** 32 - 1):
+        for op in ("set", "add", "replace", "append", "prepend", "cas"):
+            cases.append((cfgs[0] + (7,), {"op": op, "k": "k", "v": b"v", "fl": fl, "nr": rng.choice([True, False]), "cas": 3}))
+        cases.append((cfgs[1] + (7,), {"op": "set_many", "items": [("a", b"1"), ("b", b"2")], "fl": fl, "nr": False}))
     cases.append((cfgs[0], {"op": "get_many", "ks": []}))
     cases.append((cfgs[0], {"op": "delete_many", "ks": [], "nr": False}))
     cases.append((cfgs[0], {"op": "set_many", "items": [], "nr": False}))
@@ -220,19 +225,30 @@ def main(argv):
                 "non-trivial = distinct (config, call)")
     cases = gen(ctx)
     parse_lines, model_lines, metas = [], [], []
-    for i, ((au, utf8, dnr, pfx), c) in enumerate(cases):
+    class FlagSerde:
+        def __init__(self, fl):
+            self.fl = fl
+
+        def serialize(self, key, value):
+            return value, self.fl
+
+        def deserialize(self, key, value, flags):
+            return value
+    for i, (cfg5, c) in enumerate(cases):
+        au, utf8, dnr, pfx = cfg5[:4]
+        serde_flags = cfg5[4] if len(cfg5) > 4 else 0
         srv = RefServer()
         world = World(server=lambda conn, data: [srv.feed(conn.id, data)])
         world.tag = i
         try:
             client = Client(("h", 1), socket_module=FakeSocketModule(world), allow_unicode_keys=au, encoding="utf8" if utf8 else "ascii",
-                            default_noreply=dnr, key_prefix=pfx)
+                            default_noreply=dnr, key_prefix=pfx, **({"serde": FlagSerde(serde_flags)} if serde_flags else {}))
         except Exception as e:
             ctx.violation("client construction failed", {"cfg": (au, utf8, dnr, hx(pfx)), "exc": repr(e)})
             continue
         r = run_call(client, c)
         sent = b"".join(d for cn in world.conns for _, d in cn.sent)
-        want = intent(c, au, utf8, dnr, pfx)
+        want = intent(c, au, utf8, dnr, pfx, serde_flags)
         case = {"cfg": {"au": au, "utf8": utf8, "default_noreply": dnr, "prefix": hx(pfx)}, "call": repr(c)[:300], "result": r, "sent": hx(sent[:300])}
         ctx.case((au, utf8, dnr, pfx, repr(c)), sample=case if i in (11, 5000, 9000) else None)
         ctx.count("op:" + c["op"])
@@ -258,7 +274,7 @@ def main(argv):
         else:
             parse_lines.append("srv.parse data=" + hx(sent))
             metas.append(("parse", case, want, tags))
-        if model_supported(c):
+        if model_supported(c) and not serde_flags:
             model_lines.append(f"call {cfg_tok(au, utf8, dnr, False, pfx)} open=1 {call_tokens(c)}")
             metas.append(("model", case, (sent, r), tags))
     if ctx.lean.build_ok:
